@@ -335,7 +335,10 @@ type sdSpec struct {
 	mutate    func(attrs []attribute, sig []byte, digest []byte) ([]attribute, []byte)
 }
 
-func buildSigned(sp sdSpec) []byte {
+func buildSigned(sp sdSpec) []byte { return buildSignedMulti([]sdSpec{sp}) }
+
+// signerInfoFor makes the SignerInfo of one signer over sp.content.
+func signerInfoFor(sp sdSpec) (signerInfo, asn1.ObjectIdentifier) {
 	digAlg, encAlg := oidHashSM3, oidSM3withSM2
 	var digest []byte
 	if sp.sha256 {
@@ -364,23 +367,122 @@ func buildSigned(sp sdSpec) []byte {
 	if sp.mutate != nil {
 		attrs, sig = sp.mutate(attrs, sig, digest)
 	}
-	si := signerInfo{Version: 1, IssuerAndSerialNumber: issuerAndSerial{asn1.RawValue{FullBytes: sp.signer.cert.RawIssuer}, sp.signer.cert.SerialNumber},
-		DigestAlgorithm: pkix.AlgorithmIdentifier{Algorithm: digAlg}, AuthenticatedAttributes: attrs, DigestEncryptionAlgorithm: pkix.AlgorithmIdentifier{Algorithm: encAlg}, EncryptedDigest: sig}
+	return signerInfo{Version: 1, IssuerAndSerialNumber: issuerAndSerial{asn1.RawValue{FullBytes: sp.signer.cert.RawIssuer}, sp.signer.cert.SerialNumber},
+		DigestAlgorithm: pkix.AlgorithmIdentifier{Algorithm: digAlg}, AuthenticatedAttributes: attrs, DigestEncryptionAlgorithm: pkix.AlgorithmIdentifier{Algorithm: encAlg}, EncryptedDigest: sig}, digAlg
+}
+
+// buildSignedMulti: one signed-data object over sps[0].content with one SignerInfo per spec (all
+// specs share content and attached/detached form); the certificate bag holds every certInBag.
+func buildSignedMulti(sps []sdSpec) []byte {
+	var sis []signerInfo
+	var digs []pkix.AlgorithmIdentifier
+	var bag []byte
+	for _, sp := range sps {
+		si, dig := signerInfoFor(sp)
+		sis = append(sis, si)
+		dup := false
+		for _, d := range digs {
+			dup = dup || d.Algorithm.Equal(dig)
+		}
+		if !dup {
+			digs = append(digs, pkix.AlgorithmIdentifier{Algorithm: dig})
+		}
+		bag = append(bag, sp.certInBag.Raw...)
+	}
 	ci := contentInfo{ContentType: oidData}
-	if !sp.detached {
-		cb, _ := asn1.Marshal(sp.content)
+	if !sps[0].detached {
+		cb, _ := asn1.Marshal(sps[0].content)
 		ci.Content = asn1.RawValue{Class: 2, Tag: 0, Bytes: cb, IsCompound: true}
 	}
-	certBytes := sp.certInBag.Raw
-	cv := asn1.RawValue{Class: 2, Tag: 0, Bytes: certBytes, IsCompound: true}
+	cv := asn1.RawValue{Class: 2, Tag: 0, Bytes: bag, IsCompound: true}
 	cvb, _ := asn1.Marshal(cv)
-	sd := signedData{Version: 1, DigestAlgorithmIdentifiers: []pkix.AlgorithmIdentifier{{Algorithm: digAlg}}, ContentInfo: ci, Certificates: rawCerts{cvb}, SignerInfos: []signerInfo{si}}
+	sd := signedData{Version: 1, DigestAlgorithmIdentifiers: digs, ContentInfo: ci, Certificates: rawCerts{cvb}, SignerInfos: sis}
 	inner, err := asn1.Marshal(sd)
 	if err != nil {
 		panic(err)
 	}
 	outer, _ := asn1.Marshal(contentInfo{ContentType: oidSMSigned, Content: asn1.RawValue{Class: 2, Tag: 0, Bytes: inner, IsCompound: true}})
 	return outer
+}
+
+// multiSignerUnit: objects with two and three signers. Verify must accept the genuine object and
+// refuse it as soon as ANY ONE signer's contribution is wrong (signature, digest attribute,
+// certificate for another key), whichever position that signer has.
+func multiSignerUnit() harness.Unit {
+	return harness.Unit{Name: "signed-data/several-signers", Run: func(c *harness.Ctx) {
+		ids := identities()
+		other := ids[2].cert // a certificate for another key
+		faults := []struct {
+			name string
+			mut  func(sp *sdSpec)
+		}{
+			{"signature bit flipped", func(sp *sdSpec) {
+				sp.mutate = func(a []attribute, sig, d []byte) ([]attribute, []byte) {
+					s2 := append([]byte{}, sig...)
+					s2[len(s2)-1] ^= 1
+					return a, s2
+				}
+			}},
+			{"signature of other content", func(sp *sdSpec) { sp.content = append(append([]byte{}, sp.content...), 'x') }},
+			{"signer certificate for another key", func(sp *sdSpec) {
+				// the SignerInfo names (and the bag carries) a certificate whose key did not sign
+				cp := *sp.signer
+				cp.cert = other
+				sp.signer = &cp
+				sp.certInBag = other
+			}},
+		}
+		for _, n := range []int{2, 3} {
+			for _, attrs := range []bool{false, true} {
+				for _, det := range []bool{false, true} {
+					content := []byte("content signed by several parties")
+					mk := func() []sdSpec {
+						var sps []sdSpec
+						for k := 0; k < n; k++ {
+							sps = append(sps, sdSpec{content: content, attrs: attrs, detached: det, sha256: k == 1, signer: ids[k%2], certInBag: ids[k%2].cert})
+						}
+						return sps
+					}
+					verify := func(der []byte) (err error, panicked bool) {
+						panicked = c.Guard("signed-panic:several-signers", "ParsePKCS7/Verify with several signers", nil, func() {
+							p7, e := gx509.ParsePKCS7(der)
+							if e != nil {
+								err = e
+								return
+							}
+							if det {
+								p7.Content = content
+							}
+							err = p7.Verify()
+						})
+						return
+					}
+					tag := fmt.Sprintf("%d signers, attributes=%v, detached=%v", n, attrs, det)
+					c.Add("evaluations", 1)
+					c.DistinctS("nontrivial", tag)
+					if err, pk := verify(buildSignedMulti(mk())); !pk && err != nil {
+						c.Violate("signed-valid-rejected:several-signers", fmt.Sprintf("[%s] genuine object rejected: %v", tag, err), nil, nil)
+						continue
+					}
+					for pos := 0; pos < n; pos++ {
+						for _, f := range faults {
+							if f.name == "signer certificate for another key" && ids[pos%2].cert == other {
+								continue
+							}
+							sps := mk()
+							f.mut(&sps[pos])
+							c.Add("evaluations", 1)
+							c.DistinctS("nontrivial", fmt.Sprintf("%s/%d/%s", tag, pos, f.name))
+							if err, pk := verify(buildSignedMulti(sps)); !pk && err == nil {
+								c.Violate(fmt.Sprintf("signed-tampered-accepted:several-signers:%s", f.name), fmt.Sprintf("[%s] signer %d of %d: %s - Verify returns nil", tag, pos+1, n, f.name), nil, nil)
+							}
+						}
+					}
+				}
+			}
+		}
+		c.Sample("2 and 3 signers (alternating identities and digest algorithms) x attributes x detached; each of 3 faults at each signer position")
+	}}
 }
 
 func signedUnit() harness.Unit {
@@ -717,7 +819,7 @@ func blockTypes(bs []*pem.Block) []string {
 var Prop = &harness.Prop{
 	ID:          "C17",
 	Level:       "exploration",
-	Rule:        "enveloped data: every content length 0..300 and around 65280..65536 with one SM2 and one RSA recipient for both content algorithms (DER length-encoding boundaries inside the container), attached signed data of the same lengths; full product content lengths {0,1,7,8,9,15,16,17,1000,65536} x content algorithm {DES-CBC, AES-128-GCM} x {SM2 C1C3C2, SM2 C1C2C3, RSA} x 1..3 recipients: each recipient recovers the content; another key, a non-recipient certificate, the other ordering and a key of the wrong type must give an error (not a panic). signed data: SM2 objects built by the harness in the GM/T 0010 layout over lengths x attributes x attached/detached x both OID pairs verify, and each of 8 tamperings (content, signature, signer certificate, each signed attribute) is rejected; the package's own RSA creation path must verify. PKCS#12: 2 SM2 identities x 12 passwords (empty, ASCII, spaces, non-ASCII, 31/32/33/63/64/65/200 characters, 36 non-ASCII characters): round trip through DecodeAll/ToPEM, every other password refused (also one character changed at the end / in the middle / after the 32nd, cut to 31/32/33 characters); fault enumeration over one bundle per password: every byte substitution and every truncation gives an error or the same content. Distinct/non-trivial = distinct case labels / mutated bundles.",
+	Rule:        "enveloped data: every content length 0..300 and around 65280..65536 with one SM2 and one RSA recipient for both content algorithms (DER length-encoding boundaries inside the container), attached signed data of the same lengths; full product content lengths {0,1,7,8,9,15,16,17,1000,65536} x content algorithm {DES-CBC, AES-128-GCM} x {SM2 C1C3C2, SM2 C1C2C3, RSA} x 1..3 recipients: each recipient recovers the content; another key, a non-recipient certificate, the other ordering and a key of the wrong type must give an error (not a panic). signed data: SM2 objects built by the harness in the GM/T 0010 layout over lengths x attributes x attached/detached x both OID pairs verify, and each of 8 tamperings (content, signature, signer certificate, each signed attribute) is rejected; the package's own RSA creation path must verify; objects with 2 and 3 signers (alternating identities and digest algorithms) verify, and each of 3 faults at each signer position is rejected. PKCS#12: 2 SM2 identities x 12 passwords (empty, ASCII, spaces, non-ASCII, 31/32/33/63/64/65/200 characters, 36 non-ASCII characters): round trip through DecodeAll/ToPEM, every other password refused (also one character changed at the end / in the middle / after the 32nd, cut to 31/32/33 characters); fault enumeration over one bundle per password: every byte substitution and every truncation gives an error or the same content. Distinct/non-trivial = distinct case labels / mutated bundles.",
 	Assumptions: []string{"the PKCS#7 content-encryption selector is a process-wide setting changed only between units (single-threaded)", "RSA recipient certificates come from Go's crypto/x509"},
 	Bounds: func(tier string) string {
 		if tier == "thorough" {
@@ -726,7 +828,7 @@ var Prop = &harness.Prop{
 		return "complete; PKCS#12 byte faults: b^1 at every position, the other three substitutions at every 4th position, every truncation"
 	},
 	Units: func(tier string) []harness.Unit {
-		u := []harness.Unit{envelopeUnit(gx509.EncryptionAlgorithmDESCBC), envelopeUnit(gx509.EncryptionAlgorithmAES128GCM), signedUnit()}
+		u := []harness.Unit{envelopeUnit(gx509.EncryptionAlgorithmDESCBC), envelopeUnit(gx509.EncryptionAlgorithmAES128GCM), signedUnit(), multiSignerUnit()}
 		big := []int{65200, 65279, 65280, 65281, 65400, 65527, 65535, 65536, 65537}
 		for _, alg := range []int{gx509.EncryptionAlgorithmDESCBC, gx509.EncryptionAlgorithmAES128GCM} {
 			for lo := 0; lo <= 300; lo += 76 {
